@@ -127,6 +127,13 @@ def run(ctx):
                 ctx.known_hit(f, detail)
             else:
                 ctx.notes.append("saturation probe [%s] reproduced on the implementation (no known_findings entry yet): %s; replay: %s" % (KNOWN_SAT, detail, P.get("what")))
+            el = P.get("engine_level") or {}
+            if el.get("oracle"):
+                msg = "engine-level form (Euclidean TieredEngine: insert 1:[5,3], 2:[2,7]; search [5,3] k=1; search [2,7] k=1): " + str(el.get("oracle"))
+                if f:
+                    ctx.known_hits[f["id"]] += " | " + msg
+                else:
+                    ctx.notes.append("saturation probe [%s] " % KNOWN_SAT + msg)
         else:
             ctx.notes.append("saturation probe no longer hits on the implementation (C07_saturation_refuted still holds for the model)")
         if r["P_bad"]:
